@@ -7,11 +7,13 @@ import (
 	"encoding/binary"
 	"fmt"
 	"go/format"
+	"io"
 	"os"
 	"os/exec"
 	"path/filepath"
 	"reflect"
 	"strings"
+	"testing/iotest"
 	"time"
 
 	"github.com/tonkeeper/tongo/liteclient"
@@ -363,6 +365,18 @@ func (e *env) Codec(c *enum.Ctx, d *rtl.Decl, longLen int) (reflect.Value, []byt
 	if diff := gen.Equal(v, back.Elem()); diff != "" {
 		c.Fail("unmarshal-value:"+d.Name, "UnmarshalTL(schema bytes) differs from the value at %s", diff)
 		return v, want, false
+	}
+	// the same bytes arriving in pieces (one byte per Read; the last piece together with io.EOF)
+	for name, rd2 := range map[string]io.Reader{"one byte at a time": iotest.OneByteReader(bytes.NewReader(want)), "data together with EOF": iotest.DataErrReader(bytes.NewReader(want))} {
+		b2 := reflect.New(t)
+		if err := tl.Unmarshal(rd2, b2.Interface()); err != nil {
+			c.Fail("unmarshal-chunked:"+d.Name, "UnmarshalTL through a reader delivering %s fails: %v", name, err)
+			return v, want, false
+		}
+		if diff := gen.Equal(v, b2.Elem()); diff != "" {
+			c.Fail("unmarshal-chunked:"+d.Name, "UnmarshalTL through a reader delivering %s differs from the value at %s", name, diff)
+			return v, want, false
+		}
 	}
 	return v, want, true
 }
